@@ -1277,3 +1277,300 @@ func c13TrackerAlways(c *Ctx) {
 			return ""
 		}())
 }
+
+// rangeVarsNotAssigned: no loop of the package assigns to its own range key /
+// value variable (a value that is re-used for the remaining inner iterations
+// — e.g. the subscription tag of the nodes that follow a bad link).
+func rangeVarsNotAssigned(c *Ctx, rule, rel string, keepFile func(string) bool) {
+	loops, bad := 0, ""
+	for _, f := range c.P.FuncsIn(rel) {
+		if keepFile != nil && !keepFile(filepathBase(f.File())) {
+			continue
+		}
+		info := f.Info()
+		ast.Inspect(f.Body, func(m ast.Node) bool {
+			rs, ok := m.(*ast.RangeStmt)
+			if !ok || rs.Tok != token.DEFINE {
+				return true
+			}
+			loops++
+			vars := map[types.Object]bool{}
+			for _, e := range []ast.Expr{rs.Key, rs.Value} {
+				if id, ok := e.(*ast.Ident); ok && id.Name != "_" {
+					vars[info.ObjectOf(id)] = true
+				}
+			}
+			ast.Inspect(rs.Body, func(k ast.Node) bool {
+				switch x := k.(type) {
+				case *ast.AssignStmt:
+					for _, l := range x.Lhs {
+						if id, ok := l.(*ast.Ident); ok && vars[info.ObjectOf(id)] && x.Tok != token.DEFINE && bad == "" {
+							bad = fmt.Sprintf("%s assigns its range variable %s at %s", f.Name, id.Name, c.pos(x.Pos()))
+						}
+					}
+				case *ast.IncDecStmt:
+					if id, ok := x.X.(*ast.Ident); ok && vars[info.ObjectOf(id)] && bad == "" {
+						bad = fmt.Sprintf("%s modifies its range variable %s at %s", f.Name, id.Name, c.pos(x.Pos()))
+					}
+				}
+				return true
+			})
+			return true
+		})
+	}
+	c.R.Checkf(rule, "range-variables-not-reassigned@"+rel, rel, bad == "" && loops > 0,
+		"none of the %d range loops of %s assigns to its own key/value variable%s", loops, rel, func() string {
+			if bad != "" {
+				return " — VIOLATED: " + bad + ": the changed value stays in force for the rest of that iteration's inner loops (the nodes after an unparsable link inherit the placeholder tag and change group membership under subtag filters)"
+			}
+			return ""
+		}())
+}
+
+// C14: every annotation value is validated, also when it is not the one used
+func c14AnnotationValidated(c *Ctx) {
+	const rule = "NODEFAULT"
+	f := c.fn(rule, "component/outbound/dialer", "NewAnnotation")
+	if f == nil {
+		return
+	}
+	info := f.Info()
+	g := f.Graph()
+	// every parse call (time.ParseDuration, strconv.*) in a case clause is reached from the clause head unconditionally
+	n, bad := 0, ""
+	ast.Inspect(f.Body, func(m ast.Node) bool {
+		cc, ok := m.(*ast.CaseClause)
+		if !ok || cc.List == nil {
+			return true
+		}
+		var parse ast.Node
+		for _, st := range cc.Body {
+			ast.Inspect(st, func(k ast.Node) bool {
+				if call, ok := k.(*ast.CallExpr); ok && parse == nil {
+					if cal := core.Callee(info, call); cal != nil && cal.Pkg() != nil && (cal.Pkg().Path() == "time" || cal.Pkg().Path() == "strconv") && strings.HasPrefix(cal.Name(), "Parse") {
+						parse = st
+					}
+				}
+				return true
+			})
+		}
+		if parse == nil || len(cc.Body) == 0 {
+			return true
+		}
+		n++
+		// from the first node of the clause body, the parse is reached on every path to the next loop iteration
+		var start *core.Point
+		for _, b := range g.CFG.Blocks {
+			if b.Live && len(b.Nodes) > 0 && b.Nodes[0].Pos() == firstNodePos(cc.Body[0]) {
+				start = &core.Point{B: b, I: 0}
+			}
+		}
+		if start == nil {
+			return true
+		}
+		isParse := func(nd ast.Node) bool { return nd.Pos() >= parse.Pos() && nd.End() <= parse.End() }
+		heads := map[*cfg.Block]bool{}
+		for _, b := range g.CFG.Blocks {
+			if b.Kind == cfg.KindRangeLoop {
+				heads[b] = true
+			}
+		}
+		if pos, _, reach := reachesHeadAvoiding(g, *start, heads, isParse); reach && bad == "" {
+			bad = fmt.Sprintf("the %s clause goes on to the next parameter at %s without parsing its value", core.ExprStr(cc.List[0]), c.pos(pos))
+		}
+		return true
+	})
+	c.R.Checkf(rule, "every-annotation-value-is-parsed@NewAnnotation", c.pos(f.Pos()), bad == "" && n >= 1,
+		"in every annotation key clause that parses its value (%d), the parse is on every path to the next parameter: a value that is ignored (a repeated key) is still validated%s", n, func() string {
+			if bad != "" {
+				return " — VIOLATED: " + bad + ": `[add_latency: 300ms, add_latency: soon]` is silently accepted instead of being a configuration error"
+			}
+			return ""
+		}())
+}
+
+// loopSkipConditions: rendered conditions under which the first range loop over
+// `ranged` in f skips an element (`continue`).
+func loopSkipConditions(f *core.Func, ranged string) ([]string, bool) {
+	var loop *ast.RangeStmt
+	ast.Inspect(f.Body, func(m ast.Node) bool {
+		if rs, ok := m.(*ast.RangeStmt); ok && loop == nil && core.ExprStr(rs.X) == ranged {
+			loop = rs
+		}
+		return true
+	})
+	if loop == nil {
+		return nil, false
+	}
+	var out []string
+	ast.Inspect(loop.Body, func(m ast.Node) bool {
+		if is, ok := m.(*ast.IfStmt); ok {
+			for _, st := range is.Body.List {
+				if br, ok := st.(*ast.BranchStmt); ok && br.Tok == token.CONTINUE {
+					out = append(out, nospace(core.ExprStr(is.Cond)))
+				}
+			}
+		}
+		return true
+	})
+	return out, true
+}
+
+func c16SnapshotSameIndexes(c *Ctx) {
+	const rule = "SNAPSHOT"
+	a := c.fn(rule, "component/outbound/dialer", "Dialer.HealthSnapshot")
+	b := c.fn(rule, "component/outbound/dialer", "Dialer.RestoreHealthSnapshot")
+	if a == nil || b == nil {
+		return
+	}
+	sa, ok1 := loopSkipConditions(a, "d.collections")
+	sb, ok2 := loopSkipConditions(b, "d.collections")
+	if !ok1 || !ok2 {
+		c.R.Unresolved(rule, "HealthSnapshot / RestoreHealthSnapshot: loop over d.collections")
+		return
+	}
+	same := strings.Join(sa, ";") == strings.Join(sb, ";")
+	c.R.Checkf(rule, "snapshot-and-restore-walk-the-same-collections", c.pos(a.Pos()), same,
+		"HealthSnapshot skips collections under %v, RestoreHealthSnapshot under %v: a slot that is restored but was never captured is restored from the zero value — the shared TCP collection is marked dead with no history and then revived, firing alive-transition callbacks (and flapping the kernel connectivity bit) for zero actual transitions on every reload", sa, sb)
+}
+
+func c16SuccessAlwaysNotified(c *Ctx) {
+	const rule = "RESET"
+	f := c.fn(rule, "component/outbound/dialer", "Dialer.markAvailable")
+	if f == nil {
+		return
+	}
+	info := f.Info()
+	g := f.Graph()
+	n := 0
+	for _, b := range g.CFG.Blocks {
+		if !b.Live {
+			continue
+		}
+		for i, nd := range b.Nodes {
+			hit := false
+			ownCalls(nd, func(call *ast.CallExpr, _ bool) {
+				if cal := core.Callee(info, call); cal != nil && cal.Name() == "NotifyHealthCheckResult" && len(call.Args) >= 2 && core.ExprStr(call.Args[1]) == "true" {
+					hit = true
+				}
+			})
+			if !hit {
+				continue
+			}
+			n++
+			var conds []string
+			for _, gd := range g.Guards(core.Point{B: b, I: i}) {
+				for _, at := range core.Atoms(gd.Cond, gd.Polarity) {
+					s := core.ExprStr(at.Cond)
+					if strings.Contains(s, "wasAlive") || strings.Contains(strings.ToLower(s), "revival") {
+						conds = append(conds, s)
+					}
+				}
+			}
+			c.R.Checkf(rule, "every-probe-success-is-reported@markAvailable", c.pos(nd.Pos()), len(conds) == 0,
+				"the success report (which clears the per-address death streak) is not conditional on a dead->alive edge; revival conditions found: %v", conds)
+		}
+	}
+	if n == 0 {
+		c.R.Checkf(rule, "every-probe-success-is-reported@markAvailable", c.pos(f.Pos()), false, "markAvailable no longer reports a successful probe")
+	}
+}
+
+func c15Round3(c *Ctx) {
+	// (a) re-applying the unchanged policy does not recompute the selection state
+	setF := c.fn("TOLERANCE", "component/outbound/dialer", "AliveDialerSet.SetSelectionPolicy")
+	grpF := c.fn("TOLERANCE", "component/outbound", "DialerGroup.SetSelectionPolicy")
+	guardedBy := func(f *core.Func, target func(ast.Node) bool, isSame func(string) (bool, bool)) bool {
+		if f == nil {
+			return false
+		}
+		g := f.Graph()
+		pts := g.Find(target)
+		if len(pts) == 0 {
+			return false
+		}
+		for _, p := range pts {
+			ok := false
+			for _, gd := range g.Guards(p) {
+				for _, at := range core.Atoms(gd.Cond, gd.Polarity) {
+					if be, isB := at.Cond.(*ast.BinaryExpr); isB && (be.Op == token.EQL || be.Op == token.NEQ) {
+						if rel, eq := isSame(nospace(core.ExprStr(be))); rel {
+							different := (be.Op == token.NEQ) == at.Polarity
+							_ = eq
+							if different {
+								ok = true
+							}
+						}
+					}
+				}
+			}
+			if !ok {
+				return false
+			}
+		}
+		return true
+	}
+	isPolicyCmp := func(s string) (bool, bool) {
+		return strings.Contains(strings.ToLower(s), "policy"), true
+	}
+	var setOK, grpOK bool
+	if setF != nil {
+		setOK = guardedBy(setF, nodeCalls(setF.Info(), "component/outbound/dialer.AliveDialerSet.recomputeSelectionStateLocked"), isPolicyCmp)
+	}
+	if grpF != nil {
+		grpOK = guardedBy(grpF, nodeCalls(grpF.Info(), "component/outbound/dialer.AliveDialerSet.SetSelectionPolicy"), isPolicyCmp)
+	}
+	pos := "component/outbound/dialer/alive_dialer_set.go"
+	if setF != nil {
+		pos = c.pos(setF.Pos())
+	}
+	c.R.Checkf("TOLERANCE", "same-policy-does-not-recompute", pos, setOK || grpOK,
+		"recomputing the selection state (which re-elects the plain minimum, ignoring the tolerance) happens only on the edge where the policy really changes — guarded in AliveDialerSet.SetSelectionPolicy: %v, in DialerGroup.SetSelectionPolicy: %v; without either, re-applying the policy a group already has moves its choice to a candidate that is better by less than the tolerance", setOK, grpOK)
+
+	// (b) recompute forgets the cached best entirely
+	if f := c.fn("ALIVEONLY", "component/outbound/dialer", "AliveDialerSet.recomputeSelectionStateLocked"); f != nil {
+		info := f.Info()
+		g := f.Graph()
+		clears := func(n ast.Node) bool {
+			as, ok := n.(*ast.AssignStmt)
+			if !ok || len(as.Lhs) != 1 {
+				return false
+			}
+			switch core.FieldOf(info, as.Lhs[0]) {
+			case "AliveDialerSet.minLatency":
+				_, isLit := ast.Unparen(as.Rhs[0]).(*ast.CompositeLit)
+				return isLit
+			case "minLatency.dialer":
+				return core.ExprStr(as.Rhs[0]) == "nil"
+			}
+			return false
+		}
+		ex := g.ExitsAvoiding(g.Entry(), clears)
+		c.R.Checkf("ALIVEONLY", "recompute-forgets-the-cached-best@recomputeSelectionStateLocked", c.pos(f.Pos()), len(ex) == 0,
+			"every exit of recomputeSelectionStateLocked has reset the cached best node (whole minLatency or its dialer): a node kept across a policy round trip through `random` may have died meanwhile and would be handed out with no alive entry behind it")
+	}
+	// (c) the 'no alive node' sentinel is returned as it is (callers compare it by identity)
+	if f := c.fn("CHAIN", "component/outbound", "DialerGroup.SelectWithExclusionResult"); f != nil {
+		bad := ""
+		ast.Inspect(f.Body, func(m ast.Node) bool {
+			rs, ok := m.(*ast.ReturnStmt)
+			if !ok || len(rs.Results) == 0 {
+				return true
+			}
+			last := ast.Unparen(rs.Results[len(rs.Results)-1])
+			if call, isC := last.(*ast.CallExpr); isC && bad == "" {
+				if cal := core.Callee(f.Info(), call); cal != nil && cal.Pkg() != nil && (cal.Pkg().Path() == "fmt" || cal.Pkg().Path() == "errors") {
+					bad = fmt.Sprintf("return at %s yields the error %s", c.pos(rs.Pos()), core.ExprStr(call))
+				}
+			}
+			return true
+		})
+		c.R.Checkf("CHAIN", "no-alive-sentinel-returned-unwrapped@SelectWithExclusionResult", c.pos(f.Pos()), bad == "",
+			"SelectWithExclusionResult hands its callee's error on unchanged: the control plane decides on the other-family retry by comparing it with ErrNoAliveDialer%s", func() string {
+				if bad != "" {
+					return " — VIOLATED: " + bad + ": a wrapped error no longer equals the sentinel, so the documented fallback to the other IP family is never tried"
+				}
+				return ""
+			}())
+	}
+}
